@@ -106,11 +106,10 @@ impl TlsHandshaker {
         let config = self.client_config()?;
         let mut session = ClientConnection::new(config, domain)?;
 
-        while let Err(err) = session.complete_io(&mut stream) {
-            if err.kind() != io::ErrorKind::WouldBlock || !session.is_handshaking() {
-                return Err(err.into());
-            }
-        }
+        // The sockets used here are blocking: a WouldBlock error means that the read timeout expired
+        // while waiting for the peer's handshake messages, so it is reported like any other error
+        // instead of being retried forever.
+        session.complete_io(&mut stream)?;
 
         Ok(TlsStream {
             inner: StreamOwned::new(session, stream),
